@@ -26,7 +26,10 @@ LINKFLAGS = {
 }
 
 def bdir(variant="o1"):
-    return os.path.join(VERIF, ".build", variant)
+    # VERIF_BUILD_TAG selects a separate object directory (used to evaluate seeded changes in a scratch
+    # worktree given by VERIF_REPO without disturbing the builds of /repo)
+    tag = os.environ.get("VERIF_BUILD_TAG", "")
+    return os.path.join(VERIF, ".build", variant + (("-" + tag) if tag else ""))
 
 INC_LIB = ["lib", "externals", "externals/simplecpp", "externals/tinyxml2", "externals/picojson"]
 INC_CLI = ["cli", "lib", "frontend", "externals", "externals/simplecpp", "externals/tinyxml2", "externals/picojson"]
